@@ -1058,9 +1058,10 @@ def state_views(im, m):
     return bad
 
 
-def deep_views(im, m, level, flavour, hist, init, laws=True):
+def deep_views(im, m, level, flavour, hist, init, laws=True, content_new=True):
     """Destructive complete observation (forces deserialisation of everything). laws: also check the
-    equality laws (a function of the canonical state, so the caller asks for them once per state)."""
+    equality laws (a function of the canonical state, so the caller asks for them once per state).
+    content_new: also check the laws that depend on the content only (once per distinct content)."""
     x = im.x
     bad = []
     want = deep_expected(m, level)
@@ -1071,6 +1072,10 @@ def deep_views(im, m, level, flavour, hist, init, laws=True):
     if got != want:
         bad.append(("content", want, got))
         return bad
+    if content_new:
+        bad += content_laws(m, level, flavour)
+        if bad:
+            return bad
     if not laws:
         return bad
     # equality laws
@@ -1089,6 +1094,152 @@ def deep_views(im, m, level, flavour, hist, init, laws=True):
     except Exception as e:  # noqa: BLE001
         bad.append(("eq_perturbed", False, "raised " + type(e).__name__))
     return bad
+
+
+def content_key(m):
+    return json.dumps(model_key(strip_origin(m)), default=str)
+
+
+# ---- equality laws that depend only on the content of a state ------------------
+# `==` of two containers must be dict equality of their content, whatever the parse state of the two
+# operands (still serialised / fully accessed) and whatever text (or key order) the operands were parsed from.
+FOREIGN_VARIANTS = ["padding", "dquote", "comment", "one_row_loop", "blank_lines"]
+PARSE_COMBOS = [("lazy", "lazy"), ("lazy", "accessed"), ("accessed", "lazy"), ("accessed", "accessed")]
+
+
+def root_model(m, level):
+    if level == "file":
+        return m
+    if level == "block":
+        return {"B": m}
+    return {"B": {"C": m}}
+
+
+def reverse_model(m):
+    """Same content, keys inserted in the opposite order at every level."""
+    if is_col(m):
+        return m
+    return {k: reverse_model(m[k]) for k in reversed(list(m))}
+
+
+def _tok(cell, quote_all):
+    if cell in (".", "?"):
+        return cell  # mask states are bare tokens
+    t = str(cell)
+    return '"' + t + '"' if (quote_all or " " in t or t == "") else t
+
+
+def foreign_text(fm, variant):
+    """A CIF text for the file model `fm` as another program / a person would lay it out (independent writer;
+    the values of the container palette need no escaping beyond quoting a blank)."""
+    sep = "     " if variant == "padding" else " "
+    q = variant == "dquote"
+    out = []
+    for bname, blk in fm.items():
+        out.append("data_" + bname)
+        out.append("#")
+        for cname, cat in blk.items():
+            cols = list(cat.items())
+            rows = col_rows(cols[0][1])
+            if rows == 1 and variant != "one_row_loop":
+                for k, col in cols:
+                    out.append("_%s.%s%s  %s" % (cname, k, sep, _tok(col[2][0], q)))
+            else:
+                out.append("loop_")
+                for k, _ in cols:
+                    out.append("_%s.%s" % (cname, k))
+                for i in range(rows):
+                    out.append(sep.join(_tok(col[2][i], q) for _, col in cols) + (sep if variant == "padding" else ""))
+            out.append("#")
+            if variant == "comment":
+                out.append("# written by hand")
+                out.append("#")
+            if variant == "blank_lines":
+                out += ["", ""]
+    return "\n".join(out) + "\n" + ("\n\n" if variant == "blank_lines" else "")
+
+
+def serialized(m, level, flavour):
+    root = embed(build(m, level, flavour), level, flavour)
+    buf = io.StringIO() if flavour == "text" else io.BytesIO()
+    root.write(buf)
+    return buf.getvalue()
+
+
+def parsed_operand(data, level, flavour, accessed):
+    import biotite.structure.io.pdbx as pdbx
+
+    if flavour == "text":
+        root = pdbx.CIFFile.read(io.StringIO(data))
+    else:
+        root = pdbx.BinaryCIFFile.read(io.BytesIO(data))
+    x = descend(root, level)
+    if accessed:
+        deep(x, level, flavour)  # touches every element down to the column arrays
+    return x
+
+
+def deep_sorted(d):
+    if isinstance(d, list):
+        return sorted(([k, deep_sorted(v)] for k, v in d), key=lambda kv: kv[0])
+    return d
+
+
+def content_laws(m, level, flavour):
+    """Parse-state invariance and layout independence of `==` for the content m. Returns [(view, expected, observed)]."""
+    if not all(cat_serialisable(c) for c in all_categories(m, level)):
+        return []
+    m = strip_origin_keep(m)
+    bad = []
+    try:
+        base = serialized(m, level, flavour)
+    except Exception as e:  # noqa: BLE001
+        return [("eq_law.write", "success", "raised " + type(e).__name__)]
+    want_content = deep_sorted(deep_expected(m, level))
+    operands = [("same_text", base, True)]
+    rev = reverse_model(m)
+    if model_key(rev) != model_key(m):
+        operands.append(("reversed_order", None, True))
+    if flavour == "text":
+        fm = root_model(m, level)
+        one_row = any(col_rows(next(iter(c.values()))) == 1 for c in all_categories(m, level))
+        for v in FOREIGN_VARIANTS:
+            if v == "one_row_loop" and not one_row:
+                continue
+            operands.append(("foreign_" + v, foreign_text(fm, v), True))
+    for p in perturbations(m, level, flavour):
+        if all(cat_serialisable(c) for c in all_categories(p, level)):
+            operands.append(("perturbed", p, False))
+    combos = PARSE_COMBOS if not (flavour == "text" and level == "category") else PARSE_COMBOS[:1]
+    for name, data, want in operands:
+        try:
+            if name == "reversed_order":
+                data = serialized(rev, level, flavour)
+            elif name == "perturbed":
+                data = serialized(data, level, flavour)
+            if want:
+                # the operand must carry the intended content, otherwise the comparison says nothing
+                got = deep_sorted(deep(parsed_operand(data, level, flavour, False), level, flavour))
+                if got != want_content:
+                    bad.append(("eq_law.%s.content" % name, want_content, got))
+                    continue
+            for cx, cy in combos:
+                x = parsed_operand(base, level, flavour, cx == "accessed")
+                y = parsed_operand(data, level, flavour, cy == "accessed")
+                r1 = x == y
+                r2 = y != x
+                if not (isinstance(r1, (bool, np.bool_)) and bool(r1) is want and bool(r2) is (not want)):
+                    bad.append(("eq_law.%s.%s_%s" % (name, cx, cy), [want, not want], [repr(r1), repr(r2)]))
+        except Exception as e:  # noqa: BLE001
+            bad.append(("eq_law.%s.raises_%s" % (name, type(e).__name__), "a comparison result", "raised " + type(e).__name__))
+    return bad
+
+
+def strip_origin_keep(m):
+    """Content laws build both operands through write + read: the origin flag plays no role (all 'fresh')."""
+    if is_col(m):
+        return m[:3] + ("fresh",)
+    return {k: strip_origin_keep(v) for k, v in m.items()}
 
 
 def exc_mode(want, got):
@@ -1182,7 +1333,14 @@ def step(ctx, level, flavour, init, hist, m, op, rows_hist, base=None):
     if not bad:
         new = canon not in ctx._law_checked
         ctx._law_checked.add(canon)
-        bad = deep_views(im, m2, level, flavour, hist + [op], init, laws=new)
+        seen = getattr(ctx, "_content_checked", None)
+        ck = content_key(m2)
+        cnew = seen is None or ck not in seen
+        if seen is not None:
+            seen.add(ck)
+        if cnew:
+            ctx.count("content_law_states")
+        bad = deep_views(im, m2, level, flavour, hist + [op], init, laws=new, content_new=cnew)
     if bad:
         view, e, o = bad[0]
         ctx.violation("container|%s|state|%s|%s" % (subj, view, keys_class(m2)),
@@ -1208,6 +1366,7 @@ def run_history(shard, ctx):
         m0 = mark_parsed(m0)
     ops = gen_ops(level, flavour)
     ctx._law_checked = set()
+    ctx._content_checked = {content_key(m0)}
     # initial state: complete observation
     try:
         im0, _ = rebuild(level, flavour, init, [])
